@@ -39,6 +39,10 @@ ALPHABET = [
     ["REQ", "a"], ["REQ", "a", BAD], ["REQ", "a", BAD, F1],
     ["CLOSE", "a"], ["CLOSE", "z"], ["EVENT", 1], ["EVENT", 2], ["REQ", 5, F1],
 ]
+# further messages for the schedule sub-check only (the exhaustive one keeps its 13-message alphabet): filters that are
+# invalid in ways the validation layer sees late (values that cannot be hashed, numbers far out of range)
+N_EXH = len(ALPHABET)
+ALPHABET += [["REQ", "a", {"#e": [["a"]]}], ["REQ", "b", {"#t": [{"a": 1}], "kinds": [1]}], ["REQ", "a", {"kinds": [2**70]}, F1]]
 PRE = [E.make(3, 1, E.T0 - 10, [], "stored1"), E.make(3, 2, E.T0 - 10, [], "stored2")]
 LIMIT = 3
 
@@ -158,7 +162,7 @@ class Exhaustive(Sub):
 
     def enumerate(self, tier):
         depth = 4 if tier == "quick" else 5
-        n = len(ALPHABET)
+        n = N_EXH
         k = 0
         for head in itertools.product(range(n), repeat=2):
             yield {"backend": "kv", "head": list(head), "depth": depth}
@@ -170,7 +174,7 @@ class Exhaustive(Sub):
         return H.run(self._run, case)
 
     async def _run(self, case):
-        n = len(ALPHABET)
+        n = N_EXH
         viol = []
         nts = []
         evals = 0
